@@ -38,6 +38,10 @@ func (c *cond) lean() string {
 	switch c.kind {
 	case "byteEq":
 		return fmt.Sprintf("(.byteEq %d)", c.b)
+	case "byteLe":
+		return fmt.Sprintf("(.byteLe %d)", c.b)
+	case "byteGe":
+		return fmt.Sprintf("(.byteGe %d)", c.b)
 	case "dataBackEq":
 		return fmt.Sprintf("(.dataBackEq %d %d)", c.n, c.b)
 	case "not":
@@ -860,6 +864,39 @@ func (t *scanTr) boolCond(x ast.Expr, e *env) *cond {
 			return &cond{kind: "and", a: t.boolCond(v.X, e), c: t.boolCond(v.Y, e)}
 		case token.LOR:
 			return &cond{kind: "or", a: t.boolCond(v.X, e), c: t.boolCond(v.Y, e)}
+		case token.LSS, token.LEQ, token.GTR, token.GEQ:
+			// ordered comparison of the current byte with a constant, on either side
+			op := v.Op
+			var b int
+			var ok bool
+			if t.isC(v.X, e) {
+				b, ok = t.tryByte(v.Y)
+			} else if t.isC(v.Y, e) {
+				b, ok = t.tryByte(v.X)
+				switch op { // b OP c  ==  c OP' b
+				case token.LSS:
+					op = token.GTR
+				case token.LEQ:
+					op = token.GEQ
+				case token.GTR:
+					op = token.LSS
+				case token.GEQ:
+					op = token.LEQ
+				}
+			}
+			if !ok {
+				fail("%s: unsupported comparison", t.pos(x))
+			}
+			switch op {
+			case token.LEQ:
+				return &cond{kind: "byteLe", b: b}
+			case token.GEQ:
+				return &cond{kind: "byteGe", b: b}
+			case token.LSS:
+				return &cond{kind: "not", a: &cond{kind: "byteGe", b: b}}
+			default:
+				return &cond{kind: "not", a: &cond{kind: "byteLe", b: b}}
+			}
 		case token.EQL, token.NEQ:
 			var c *cond
 			if t.isC(v.X, e) {
